@@ -217,11 +217,14 @@ def copyPort (a base : Agg) : Agg :=
   | none => clearPort a
 
 /-- "if (base_url->has_search()) update_base_search(s.empty() ? "?" : s)" (both spellings write '?' + the query text) -/
+def searchEnd (base : Agg) : Nat :=
+  match base.hh with
+  | some h => h
+  | none => base.buf.length
+
 def copySearch (a base : Agg) : Agg :=
   match base.ss with
-  | some ss =>
-    let stop := match base.hh with | some h => h | none => base.buf.length
-    updateBaseSearch a (slice base.buf (ss + 1) stop)
+  | some ss => updateBaseSearch a (slice base.buf (ss + 1) (searchEnd base))
   | none => a
 
 def baseType (base : Agg) : Nat := getSchemeType (getProtocol base).dropLast
